@@ -38,6 +38,16 @@ Theorem C13_append_option_prefix : forall screaming name nm pfx opts o,
 Proof. intros screaming. exact (cv_enum_snoc screaming screaming screaming). Qed.
 Print Assumptions C13_append_option_prefix.
 
+(* an append at any address inside a declaration - following inline types (through array and
+   map items) and nested declarations to any depth; the action is a field at the end of the
+   message reached, an option at the end of the (non-empty) enum reached, or a nested
+   declaration at the end of the message reached - extends the message in the sense of
+   J5sEdit.props_ext / nesteds_ext *)
+Theorem C13_append_anywhere_extends : forall a path ps subs,
+  props_ext ps (fst (apply_at path a ps subs)) /\ nesteds_ext subs (snd (apply_at path a ps subs)).
+Proof. exact apply_at_ext. Qed.
+Print Assumptions C13_append_anywhere_extends.
+
 (* every append edit, and every sequence of append edits (induction over the edit list:
    fold_left), extends the source file in the sense of J5sEdit.file_src_ext *)
 Theorem C13_edit_sequence_extends : forall es f, edits_ok es f ->
@@ -97,8 +107,10 @@ Print Assumptions C13_package_append_preserves.
 
 (* the property at full strength, on the linked descriptors (what CompilePackage returns): for
    every valid bundle whose files lie in package directories, every package of it and every
-   sequence of append edits (fold_left over the list: apply_edits) each of which addresses a
-   source file, is applicable and leaves the bundle valid (seq_ok), the edited package compiles
+   sequence of append edits (fold_left over the list: apply_edits; an edit appends a field, an
+   option or a nested declaration anywhere inside a declaration - J5sEdit.EAppendIn and its
+   top-level special cases - or a declaration to a file) each of which addresses a source file,
+   is applicable and leaves the bundle valid (seq_ok), the edited package compiles
    and every previously generated file, message, field (name, JSON name, number, type, label,
    optionality, fully qualified type name), nested message, enum value (name, number), service
    and method (types, HTTP rule) is unchanged: the old descriptors embed into the new ones
@@ -107,14 +119,24 @@ Print Assumptions C13_package_append_preserves.
    that qualifying type names commutes with the embedding. *)
 Definition C13_full_statement : Prop :=
   forall es bd pkg D,
-    J5sC13Proofs.valid bd = true -> (forall x, In x bd -> bfile_pkg x <> []) -> seq_ok bd es ->
+    valid bd = true -> (forall x, In x bd -> bfile_pkg x <> []) -> seq_ok bd es ->
     (exists x, In x bd /\ bfile_pkg x = pkg) ->
-    J5sC13Proofs.compile bd pkg = Ok D ->
-    exists D', J5sC13Proofs.compile (apply_edits bd es) pkg = Ok D' /\ files_ext D D'.
+    compile bd pkg = Ok D ->
+    exists D', compile (apply_edits bd es) pkg = Ok D' /\ files_ext D D'.
 
 Theorem C13_full : C13_full_statement.
 Proof. exact c13_full. Qed.
 Print Assumptions C13_full.
+
+(* non-vacuity of C13_full for deep targets: four edits - a field inside the inline object of an
+   array's items, an option of the inline enum inside that, a field of a nested declaration, a
+   new nested enum - satisfy seq_ok, change the output, and the old descriptors embed *)
+Theorem C13_deep_edits_preserve :
+  exists D D', compile w_deep (b "foo.v1") = Ok D /\
+               compile (apply_edits w_deep w_deep_edits) (b "foo.v1") = Ok D' /\
+               files_ext D D' /\ D' <> D.
+Proof. exact deep_edits_preserve. Qed.
+Print Assumptions C13_deep_edits_preserve.
 
 (* regression example (defect repaired by 2ef7c92): `object Foo { field x object {} }` and the same
    with `field foo object {}` appended both compile, and the existing field x keeps its type *)
